@@ -143,8 +143,12 @@ func runC08(c *core.Ctx, b core.Batch) {
 			hist := func(s string) { ops = append(ops, s) }
 			in := gen.ValidWire(r, mt, fo, r.Intn(4), hist)
 			if k%3 == 1 {
-				for i := 0; i < 1+r.Intn(2); i++ {
-					in = gen.Mutate(r, in, hist)
+				if r.Bool() {
+					in = gen.ConfuseWire(r, in, mt.Descriptor(), hist)
+				} else {
+					for i := 0; i < 1+r.Intn(2); i++ {
+						in = gen.Mutate(r, in, hist)
+					}
 				}
 			}
 			in2 := gen.ValidWire(r, mt, fo, r.Intn(2), nil)
